@@ -123,6 +123,13 @@ def rule_oblig(ctx, prop: str) -> RuleResult:
     need(carried, line, "For:loop-carried-config",
          "the loop body is analysed once under the configuration values that hold before the loop; a field written in the body is not invalidated for the next iteration: "
          "`Cfg.i = 0; for k in seq(0, n): x[Cfg.i] = 0.0; Cfg.i = 100` is accepted although the second iteration writes x[100]")
+    # WindowStmt: the declared extent of a window made in the body is an obligation of its own
+    # (accesses through it are translated to the underlying buffer, which only bounds them by the buffer)
+    wb, wline = case("WindowStmt")
+    issues = any(isinstance(n, ast.Call) and last_name(n) in ("check_bounds", "check_in_bounds", "check_non_negative", "check_pos_size") for n in ast.walk(wb))
+    need(issues, wline, "WindowStmt:extent",
+         "a window statement issues no obligation: accesses through the window are compared with the underlying buffer only, and the interval itself is not compared with the buffer: "
+         "`w = x[0:4]; w[5] = 0.0` and `w = x[0:20]` on `x: R[10]` are accepted (an access outside the declared extent of a window)")
     need(m is not None and chk is not None, line, "For:hi-lo>=0", "loops are no longer checked for a non-negative trip count `hi - lo` (a loop whose upper bound is below its lower bound is accepted)",
          "For: check_non_negative(hi - lo)")
     need(chk is not None and assume and chk[0].lineno < min(a.lineno for a in assume), line, "For:check-before-assume",
